@@ -121,7 +121,9 @@ pub fn execute_with(prop: &PropDef, cfg: &Cfg, evs: &[Ev], mut oracle: Box<dyn O
                 Verdict::Violation(Violation {
                     property: prop.id.into(),
                     oracle: "no_panic".into(),
-                    signature: p.signature(),
+                    // byzantine-input properties identify a finding by the source file that panics: the tail of
+                    // distinct unwrap/index sites inside one decoder is long and input-dependent
+                    signature: if prop.abort_prone { p.coarse_signature() } else { p.signature() },
                     step: p.step,
                     detail: format!("{} panicked at {}:{}: {}", p.context, p.file, p.line, p.message),
                 })
@@ -265,9 +267,11 @@ pub fn publish_context(s: &str) {
 
 pub const CAP_SINGLE: usize = 1 << 30;
 pub const CAP_TOTAL: usize = 768 << 20;
-pub const RUN_TIMEOUT_MS: i32 = 10_000;
+pub const RUN_TIMEOUT_MS: i32 = 6_000;
 
 fn normalise_ctx(s: &str) -> String {
+    // keep the seam and the entry point ("deliver_corrupt/load_incremental"), drop the input-specific rest
+    let s = s.split(|c| c == ':' || c == '(').next().unwrap_or(s).trim();
     // digits carry run-specific offsets: collapse them
     let mut out = String::new();
     let mut last = false;
